@@ -27,6 +27,12 @@ class NestedDtype(ExtensionDtype):
     _metadata = ("pyarrow_dtype",)
     """Attributes to use as metadata for __eq__ and __hash__"""
 
+    def __hash__(self) -> int:
+        # pyarrow hashes a type through its string form, which spells the name of the list item field
+        # ("item" in memory, "element" for data read from parquet), while types that differ only in
+        # that name compare equal: hash what equality looks at, so that equal dtypes hash alike.
+        return hash(tuple((field.name, field.type.value_type.id) for field in self.pyarrow_dtype))
+
     @property
     def na_value(self) -> Type[pd.NA]:
         """The missing value for this dtype"""
